@@ -42,6 +42,10 @@ def c02(ctx):
     ct = ctx.build(tags="verif,constantTime")
     ctx.run_vh("alg", ["-in", bh, "-scalars", "-bindings", 3 if q else 12], binary=ct)
     ctx.run_vh("alg", ["-in", sim, "-scalars", "-bindings", 2 if q else 6], binary=ct)
+    # Scalar.Pick on every group: in [0,q), a function of the bytes drawn (spec/PickEmbed.tla, op spick)
+    pe = os.path.join(ctx.tmp, "C02_pick.ndjson")
+    ctx.tlc("PickEmbed", cfg(constants={"L": 3}, invariants=["Emit"]), name="C02_gen_pick", collect=pe)
+    ctx.run_vh("pickembed", ["-in", pe, "-lastop", "spick", "-max", 0, "-maxslow", 0])
     # exact: kyber's own mod.Int over Z_m, m = 2..17, every value predicted by TLC (spec/TinyField.tla)
     import props_xof
     props_xof.tiny_scalar(ctx)
